@@ -14,7 +14,7 @@ ResetTo(k) ==
   /\ obs' = [a |-> "init", arg |-> [kind |-> k, nh |-> NH, nobj |-> NObj, max |-> Max],
              exp |-> [ret |-> "ok", href |-> [h \in Handles |-> 0], copy |-> [h \in Handles |-> 0],
                       alive |-> [o \in Objs |-> 0], gone |-> <<>>, cnt |-> [o \in Objs |-> -1],
-                      shared |-> [o \in Objs |-> -1], val |-> -1, bare |-> IF k = "bare" THEN 1 ELSE -1, quiet |-> 0]]
+                      shared |-> [o \in Objs |-> -1], val |-> -1, bare |-> IF k = "bare" THEN 1 ELSE -1, badfree |-> 0, quiet |-> 0]]
 
 Step(ev) ==
   CASE ev.a = "init"      -> ev.arg.nh = NH /\ ev.arg.nobj = NObj /\ ev.arg.max = Max /\ ResetTo(ev.arg.kind)
@@ -47,6 +47,7 @@ Matches(ev) ==
   /\ e.cnt = o.cnt /\ e.shared = o.shared /\ e.bare = o.bare
   /\ (e.val # -1 => e.val = o.val)
   /\ (e.quiet = 0 => o.quiet = 0)
+  /\ e.badfree = o.badfree
 
 TraceInit ==
   /\ l = 1 /\ kind = "bare"
@@ -56,7 +57,7 @@ TraceInit ==
   /\ obs = [a |-> "none", arg |-> [x |-> 0],
             exp |-> [ret |-> "ok", href |-> [h \in Handles |-> 0], copy |-> [h \in Handles |-> 0],
                      alive |-> [o \in Objs |-> 0], gone |-> <<>>, cnt |-> [o \in Objs |-> -1],
-                     shared |-> [o \in Objs |-> -1], val |-> -1, bare |-> 0, quiet |-> 0]]
+                     shared |-> [o \in Objs |-> -1], val |-> -1, bare |-> 0, badfree |-> 0, quiet |-> 0]]
 
 TraceNext ==
   /\ l <= Len(TraceLog)
